@@ -639,6 +639,9 @@ fn same_violation(out: &RunOut, key: &str, property: &str, scn_name: &str, conte
 
 /// Delta-debugging style minimisation: simpler parameters, fewer preemptions, shorter script.
 pub fn minimise<S: Scenario>(scn: &Arc<S>, f: &Found<S::P>, budget_runs: u64, deadline: Instant) -> (S::P, RunOut, Value) {
+    if std::env::var_os("VERIF_NO_MINIMISE").is_some() {
+        return (f.params.clone(), f.out.clone(), json!({"note": "not minimised (VERIF_NO_MINIMISE)"}));
+    }
     let key = f.violation.key.clone();
     let prop = f.violation.property.clone();
     let mut best_p = f.params.clone();
@@ -1051,7 +1054,7 @@ impl<S: Scenario> PartRunner for Part<S> {
                 continue;
             }
             // minimise (time-boxed), re-record, confirm in a fresh process
-            let minimise_s = if seen_new.len() <= 4 { 12 } else if seen_new.len() <= 12 { 3 } else { 0 };
+            let minimise_s = if std::env::var_os("VERIF_NO_MINIMISE").is_some() { 0 } else if seen_new.len() <= 4 { 12 } else if seen_new.len() <= 12 { 3 } else { 0 };
             let (p, out, info) = minimise(scn, f, 1500, Instant::now() + Duration::from_secs(minimise_s));
             let v = out.violations.iter().find(|v| v.key == f.violation.key).cloned().unwrap_or_else(|| f.violation.clone());
             let name = format!("{}-{}-{}.json", scn.property(), sanitize(&v.key), f.run_index);
